@@ -24,6 +24,8 @@ type HarnessSpec struct {
 	Bounds      map[string]any `json:"bounds"`
 	Stubs       []string       `json:"stubs"`
 	TimersAtEveryOp bool       `json:"timers_at_every_op"`
+	MaxPreemptions  int        `json:"max_preemptions"`
+	MaxPreemptionsThorough int `json:"max_preemptions_thorough"`
 }
 
 func (h *HarnessSpec) timeBudget() int {
@@ -146,6 +148,19 @@ func (c *HarnessConfig) skipInit(pkgPath string) bool {
 		}
 	}
 	return false
+}
+
+// maxPreemptions bounds context switches away from a runnable goroutine (CHESS-style).
+func (c *HarnessConfig) maxPreemptions(p *pathState) int {
+	if c != nil && c.curSpec != nil {
+		if p != nil && p.w.eng.tier == "thorough" && c.curSpec.MaxPreemptionsThorough > 0 {
+			return c.curSpec.MaxPreemptionsThorough
+		}
+		if c.curSpec.MaxPreemptions > 0 {
+			return c.curSpec.MaxPreemptions
+		}
+	}
+	return 2
 }
 
 func (c *HarnessConfig) timersAtEveryOp() bool {
